@@ -233,7 +233,7 @@ def icode_run(txt):
     return '\n'.join(out) + '\n'
 
 
-def mk_complement(name, rotation=None, keep=False, hetero=None, icodes=False):
+def mk_complement(name, rotation=None, keep=False, hetero=None, icodes=False, legacy=False):
     def body(ctx):
         """complete residues with regular geometry get the full complement;
         every added hydrogen has exactly one (heavy) neighbour at the tabulated
@@ -247,7 +247,11 @@ def mk_complement(name, rotation=None, keep=False, hetero=None, icodes=False):
             if rotation is not None:
                 v = rot(rotation, v)
             a.x, a.y, a.z = v[0] + t, v[1], v[2]
-        if keep:
+        if legacy:
+            # hydrogens supplied under old-style names (1HD2, 2HH1, ...), default options: they are discarded and rebuilt
+            from .c04 import with_hydrogens_text
+            mol = M.run(with_hydrogens_text(name, legacy_names=True), transform=tr)
+        elif keep:
             from .c04 import with_hydrogens_text
             mol = M.run(with_hydrogens_text(name), args=['--keep-protons'], transform=tr)
         else:
@@ -325,6 +329,10 @@ def obligations(tier):
                               bounds='micro-structure %s under a symbolic grid translation t in [0,2.509] along x; whole pipeline' % name,
                               claim_doc='His 2, Arg 5, Asn/Gln 2, Trp 1, amide 1 (not Pro / first residue); each H has one heavy neighbour at the tabulated length +-0.0009; H on one atom >= 0.5 A apart',
                               max_paths=5000, wall_s=170 if tier == 'quick' else 1200))
+    for name in (['tri_ASN', 'tri_ARG'] if tier == 'quick' else ['tri_ASN', 'tri_ARG', 'tri_GLN', 'pair_GLU_ARG_TYR', 'pair_ASP_ARG']):
+        obs.append(Obligation('O3-complement-and-placement[%s,input hydrogens with old-style names]' % name, mk_complement(name, legacy=True), code=pipe + ['propka/atom.py:Atom.set_properties (element)', 'propka/input.py:get_atom_lines_from_pdb'],
+                              bounds='%s with hydrogens supplied under digit-first names (1HD2, 2HH1, ...), default options, symbolic grid translation' % name,
+                              claim_doc='as O3: supplied hydrogens are recognised as hydrogens whatever their naming style, discarded, and the full complement is rebuilt', max_paths=5000, wall_s=170))
     for name in (['pep8'] if tier == 'quick' else ['pep8', 'tri_HIS', 'pair_GLU_ARG_TYR']):
         obs.append(Obligation('O3-complement-and-placement[%s,numbered n nA nB ...]' % name, mk_complement(name, icodes=True), code=pipe + ['propka/input.py:get_atom_lines_from_pdb'],
                               bounds='%s with its second and third residue numbered like the first plus insertion codes A, B; symbolic grid translation' % name,
